@@ -237,7 +237,7 @@ def generate(rng, tier):
     specs = []
     quick = tier == 'quick'
     # 1. single-basis insertions with the matrix
-    nb = 90 if quick else 1500
+    nb = 140 if quick else 1500
     for bi in range(nb):
         p = rng.randint(1, 5 if quick else 7)
         mode = bi % 6
@@ -268,7 +268,7 @@ def generate(rng, tier):
                 continue
             specs.append({'kind': 'basis', 'basis': b, 'x': x})
     # 2. object histories
-    nh = 170 if quick else 4000
+    nh = 420 if quick else 4000
     for hi in range(nh):
         pardim = [1, 2, 1, 3, 2, 1][hi % 6]
         o = _object(rng, pardim, min_size=(hi % 5 == 2), periodic_prob=0.45 if hi % 2 else 0.2)
@@ -281,7 +281,7 @@ def generate(rng, tier):
         o = _object(rng, rng.choice([1, 2]))
         specs.append({'kind': 'history', 'obj': o, 'steps': [{'dir': len(o['bases']), 'knots': [0.5], 'scalar': True}]})
     # 3. refine
-    nr = 50 if quick else 900
+    nr = 80 if quick else 900
     for ri in range(nr):
         pardim = [1, 2, 3, 2, 1][ri % 5]
         o = _object(rng, pardim, min_size=(ri % 6 == 5), periodic_prob=0.35)
@@ -298,7 +298,7 @@ def generate(rng, tier):
                 ns = ns + [1]
             specs.append({'kind': 'refine', 'obj': o, 'ns': ns, 'direction': None})
     # 4. graded refinement utilities
-    ng = 45 if quick else 700
+    ng = 60 if quick else 700
     for gi in range(ng):
         pardim = [1, 2, 1, 3][gi % 4]
         o = _object(rng, pardim, periodic_prob=0.25, min_size=(gi % 8 == 7))
@@ -545,10 +545,11 @@ def _geometry_fails(sp, o_spec, obj, dirs):
                 s0, s1 = infos[q]['start'], infos[q]['end']
                 params.append([s0 + (s1 - s0) * _OTHER[(i + q) % len(_OTHER)] for i in range(len(pts))])
         try:
-            if pd == 1:
-                after = np.asarray(obj.evaluate(params[0]))
-            else:
-                after = np.asarray(obj.evaluate(*params, tensor=False))
+            with np.errstate(all='ignore'):
+                if pd == 1:
+                    after = np.asarray(obj.evaluate(params[0]))
+                else:
+                    after = np.asarray(obj.evaluate(*params, tensor=False))
         except Exception as ex:  # noqa: BLE001
             fails.append('evaluate after insertion raised %s: %s' % (type(ex).__name__, ex))
             continue
@@ -572,7 +573,8 @@ def _geometry_fails(sp, o_spec, obj, dirs):
             rights = [q != d for q in range(pd)]
             want = exact.nurbs_point(o_spec, u, rights)
             try:
-                got = _eval_sides(obj, u, rights)
+                with np.errstate(all='ignore'):
+                    got = _eval_sides(obj, u, rights)
             except Exception as ex:  # noqa: BLE001
                 fails.append('left evaluation after insertion raised %s: %s' % (type(ex).__name__, ex))
                 break
